@@ -35,3 +35,40 @@ Theorem C08_alap : forall p t r f e, alap_leaf_dates p t = Some (f, e) -> t_need
       exists y, In y (alap_bookings p) /\ b_res y = r /\ b_slot y = x /\ b_task y <> t.
 Proof. exact alap_no_idle. Qed.
 Print Assumptions C08_alap.
+
+(* ---- teams and limits: a slot between bound and end (start and deadline in backward mode) that the task did
+   not take has, in the FINAL schedule, a team member that does not work then, or a member booked for another
+   task, or a limit (of the member, of one of its groups, of the task or of one of its containers) without
+   room for the whole team in that period *)
+Require Import SP.Proofs.SchedTeam.
+Theorem C08_asap_teams_and_limits : forall p t f e, leaf_dates (schedule p) t = Some (f, e) -> t_need (task_of p t) <> 0 ->
+  NoDup (t_team (task_of p t)) ->
+  exists b, b <= f /\ (forall s, t_pin (task_of p t) = Some s -> b = s) /\
+    (t_pin (task_of p t) = None -> forall d, In d (t_deps (task_of p t)) ->
+       exists s' e', dates p (schedule p) (d_task d) = Some (s', e') /\ (if d_onstart d then s' else e') + d_gap d <= b) /\
+    forall x, b <= x -> x < e ->
+      (forall r, In r (t_team (task_of p t)) -> In (mk t r x) (bookings (schedule p))) \/
+      exists r, In r (t_team (task_of p t)) /\
+        (r_work (res_of p r) x = false \/
+         (exists y, In y (bookings (schedule p)) /\ b_res y = r /\ b_slot y = x /\ b_task y <> t) \/
+         (exists l, In l (limits_of p t r) /\
+            l_value (lim_of p l) < usage p (schedule p) l (l_period (lim_of p l) x) + team_count p l t (t_team (task_of p t)))).
+Proof. exact no_idle_team. Qed.
+Print Assumptions C08_asap_teams_and_limits.
+
+Theorem C08_alap_teams_and_limits : forall p t f e, alap_leaf_dates p t = Some (f, e) -> t_need (task_of p t) <> 0 ->
+  NoDup (t_team (task_of p t)) ->
+  exists dl, e <= dl /\ dl <= p_upper p /\
+    (forall s, t_pin (task_of p t) = Some s -> s <= p_upper p -> dl = s) /\
+    (t_pin (task_of p t) = None -> forall d, In d (t_deps (task_of p t)) ->
+       exists s' e', alap_dates p (d_task d) = Some (s', e') /\ dl + d_gap d <= (if d_onstart d then e' else s')) /\
+    forall x, f <= x -> x < dl ->
+      (forall r, In r (t_team (task_of p t)) -> In (mk t r x) (alap_bookings p)) \/
+      exists r, In r (t_team (task_of p t)) /\
+        (r_work (res_of p r) x = false \/
+         (exists y, In y (alap_bookings p) /\ b_res y = r /\ b_slot y = x /\ b_task y <> t) \/
+         (exists l, In l (limits_of p t r) /\
+            l_value (lim_of p l) <
+            usage p {| bookings := alap_bookings p; placed := nil |} l (l_period (lim_of p l) x) + team_count p l t (t_team (task_of p t)))).
+Proof. exact alap_no_idle_team. Qed.
+Print Assumptions C08_alap_teams_and_limits.
